@@ -166,6 +166,17 @@ func TestVerifC08Sock(t *testing.T) {
 		jobs = append(jobs, job{i: i, via: v.via, c: c})
 	}
 
+	// directed: the boundary of the DNSCrypt library over TCP (65535 - 64): the
+	// complete reply (handler response + the 11-byte OPT record) is 65470,
+	// 65471 and 65472 bytes long
+	for d := -1; d <= 1; d++ {
+		for _, kind := range []string{"manyA", "bigtxt"} {
+			jobs = append(jobs, job{i: len(jobs), via: "dnscrypt-tcp", c: dnsserver.VerifC08Case{Proto: "dnscrypt-tcp",
+				Req: dnsserver.VerifC08Req{Opt: true, Size: 4096}, Cfg: dns.MaxMsgSize,
+				Shape: dnsserver.VerifC08Shape{Kind: kind, Bulk: "an", Fill: "an", HOpt: "none", Target: dns.MaxMsgSize - 64 + d - 11}}})
+		}
+	}
+
 	res := make([]dnsserver.VerifC08Obs, len(jobs))
 	var wg sync.WaitGroup
 	ch := make(chan int)
